@@ -130,7 +130,13 @@ pub fn gen_name(rng: &mut Rng) -> String {
     let len = *rng.pick(&[0usize, 1, 1, 2, 2, 3, 3, 4, 5, 8, 15, 16, 30, 31, 32, 33, 40]);
     let style = rng.below(8);
     let mut s = String::new();
-    for _ in 0..len {
+    // U+0000 is an ordinary (valid) character of a name: sometimes inside, sometimes at the end
+    let nul_at = if rng.chance(1, 12) && len > 0 { Some(if rng.chance(1, 2) { len - 1 } else { rng.below(len as u64) as usize }) } else { None };
+    for i in 0..len {
+        if nul_at == Some(i) {
+            s.push('\u{0}');
+            continue;
+        }
         let class = match style {
             0 | 1 => 0,
             2 => *rng.pick(&[0, 1]),
